@@ -1,6 +1,7 @@
 package c17
 
 import (
+	"math/bits"
 	"sort"
 	"strconv"
 
@@ -51,11 +52,36 @@ type gen struct {
 	ndrv           int
 }
 
+// bitGens[k] draws exactly k fair bits in one call.  rapid.IntRange is
+// deliberately biased towards small values (measured: a nominal 7 % choice was
+// taken 13 % of the time), which would make every rate in this generator a
+// guess; single bits are unbiased and still shrink towards 0 = the first, i.e.
+// simplest, alternative.
+var bitGens = func() (out [21]*rapid.Generator[[]bool]) {
+	for k := 1; k <= 20; k++ {
+		out[k] = rapid.SliceOfN(rapid.Bool(), k, k)
+	}
+	return
+}()
+
 func (g *gen) intn(n int) int {
 	if n <= 1 {
 		return 0
 	}
-	return rapid.IntRange(0, n-1).Draw(g.t, "i")
+	k := bits.Len(uint(n - 1))
+	for tries := 0; tries < 16; tries++ {
+		v := 0
+		for _, b := range bitGens[k].Draw(g.t, "bits") {
+			v <<= 1
+			if b {
+				v |= 1
+			}
+		}
+		if v < n {
+			return v
+		}
+	}
+	return 0
 }
 func (g *gen) chance(pct int) bool { return g.intn(100) < pct }
 func (g *gen) pick(xs []string) string {
@@ -142,12 +168,20 @@ func (g *gen) ref(c cand, ctx string) {
 		}
 	} else if c.b.global && c.b.pkg != g.cur.name {
 		g.feat("xpkg")
+		// a bare reference to an imported name: where the use-package form
+		// stands decides what a per-file analysis can know about it
+		if g.cur.impFile[c.b.name] == g.fileIdx {
+			ctx = "imported"
+		} else {
+			g.feat("import-from-other-file")
+			ctx = "imported-other-file"
+		}
 	}
 	g.e.sym(Occ{N: name, R: "ref", B: c.b.id, K: c.b.kind, C: ctx})
 }
 
 func (g *gen) bindOcc(b *bind) {
-	g.e.sym(Occ{N: b.name, R: "bind", B: b.id, K: b.kind})
+	g.e.sym(Occ{N: b.name, R: "bind", B: b.id, K: b.kind, P: b.pkg})
 }
 
 // binderName chooses a name for a new local binder; a third of the time it
